@@ -80,8 +80,11 @@ fn typed_io(f: &[&str]) -> String {
     let kind = kind_of(f[3].parse().unwrap_or(1));
     let k: usize = if f[2] == "-" { usize::MAX } else { f[2].parse().unwrap_or(0) };
     let mut outs: Vec<String> = vec![];
-    for (chunk, interrupts) in [(1usize, false), (3, true), (64, false)] {
-        let rd = FaultReader { data: &data, pos: 0, chunk, fail_at: k.min(data.len() + 1), kind, one_shot: false, fired: false, tick: 0, interrupts };
+    // persistent failures under three chunkings, and ONE-SHOT failures (the reader fails once and then goes on delivering the remaining
+    // bytes: std::io::Bytes does not latch errors, so code that keeps reading after an error — end_seq()/end_map() after a failed
+    // visitor — sees more input and may replace the Io error by a later one)
+    for (chunk, interrupts, one_shot) in [(1usize, false, false), (3, true, false), (64, false, false), (1, false, true), (5, true, true)] {
+        let rd = FaultReader { data: &data, pos: 0, chunk, fail_at: k.min(data.len() + 1), kind, one_shot, fired: false, tick: 0, interrupts };
         let rd = if k == usize::MAX { FaultReader { fail_at: usize::MAX, ..rd } } else { rd };
         let s = match f[1] {
             "0" => show_res(serde_json::from_reader::<_, Vec<u8>>(rd)),
